@@ -12,6 +12,14 @@ import Proofs.Grammar
 
 namespace DV
 
+/-! CCG notation, result first, the way `ccg.cat2ty` reads category strings (ccg.py:39-42:
+    `left/right ↦ cat2ty(left) << cat2ty(right)`, `left\right ↦ cat2ty(right) >> cat2ty(left)`). -/
+
+/-- `X/Y` — looks for a `Y` on its right, then is an `X` — is `X << Y`. -/
+abbrev BTy.fwd (x y : BTy) : BTy := BTy.over x y
+/-- `X\Y` — looks for a `Y` on its left, then is an `X` — is `Y >> X` ("Y under X"). -/
+abbrev BTy.bwd (x y : BTy) : BTy := BTy.under y x
+
 /-- The boxes of a rigid diagram that are not cups, caps or swaps, in order. -/
 def Diagram.gens (d : Diagram) : List Box := d.boxes.filter (fun b => b.kind == .gen)
 
